@@ -14,6 +14,7 @@ import HSModel.Proofs.RefsSafe
 import HSModel.Proofs.DiscRun
 import HSModel.Proofs.Disc
 import HSModel.Proofs.RefineAll
+import HSModel.Proofs.ConcInv
 namespace HS.C05
 open Abs
 variable (cfg : Config) (o : Oracle)
@@ -207,6 +208,45 @@ theorem concrete_exact_history (cs : List Call) (hid : PlainIds o) (hdg : PlainD
     · exact run_keeps_no_fault _ w hnf
     · rw [hw]
       exact concrete_exact_step cfg o c w.st w.log h hid hdg hinj (hcs c (List.mem_cons_self ..))
+
+/-- the calls that never write a reference file -/
+def KeepsRefs : Call → Prop
+  | .storeObject .. => False
+  | .tagObject .. => False
+  | .deleteObject .. => False
+  | _ => True
+
+theorem keepsRefs_safe (c : Call) (h : KeepsRefs c) : (c.prog cfg o).AllEv RefsSafe := by
+  cases c with
+  | storeObject => exact h.elim
+  | tagObject => exact h.elim
+  | deleteObject => exact h.elim
+  | deleteIfInvalid om c ca s => exact deleteIfInvalid_safe cfg o om c ca s
+  | storeMetadata p d f => exact storeMetadata_safe cfg o p d f
+  | retrieveObject p => exact retrieveObject_safe cfg o p
+  | retrieveMetadata p f => exact retrieveMetadata_safe cfg o p f
+  | deleteMetadata p f => exact deleteMetadata_safe cfg o p f
+  | getHexDigest p a => exact getHexDigest_safe cfg o p a
+
+/-- **Metadata calls, readers and `delete_if_invalid_object` never disturb the reference
+    bookkeeping, under every interleaving.** Any number of threads running such calls with any
+    arguments, from any world whose two indexes agree (`RefsExact`), any fault plan, every schedule,
+    every granularity: the indexes agree after every step. -/
+theorem exact_kept_under_every_interleaving (calls : List Call) (hc : ∀ c ∈ calls, KeepsRefs c)
+    (w0 : World) (h : RefsExact o w0.st) (fuel : Nat) (sched : List Nat) (n : Nat) :
+    RefsExact o (runSchedule fuel { w := w0, ts := calls.map (fun c => TState.fresh (c.prog cfg o)) } sched n).1.w.st := by
+  have h0 : SafeConf RefsSafe (fun _ _ => True) (fun w => RefsExact o w.st) (fun _ _ => True)
+      { w := w0, ts := calls.map (fun c => TState.fresh (c.prog cfg o)) } := by
+    refine ⟨h, ?_⟩
+    intro i t hi
+    simp only at hi
+    rw [List.getElem?_map] at hi
+    cases hci : calls[i]? with
+    | none => rw [hci] at hi; cases hi
+    | some c =>
+      rw [hci] at hi; cases hi
+      exact Prog.safe_of_allEv _ (keepsRefs_safe cfg o c (hc c (List.mem_of_getElem? hci)))
+  exact (safe_schedule (refsExact_safe_preserved o) (fun _ _ _ => trivial) _ fuel sched _ n h0).1
 
 /-- what exactness says, spelled out: a bound pid is listed by exactly its cid,
     once; every list is non-empty and names only pids bound to it -/
